@@ -41,14 +41,21 @@ def make_case(seed, idx, tier):
         "lscs": ["dontstop", "melimit", "user", "children", "steady"],
         "entry": None,
     }
-    if idx % 12 == 5:
+    top_seed = idx % 16 == 7  # (a residue that no other sub-profile of this generator uses)
+    if top_seed:
         # the top of numpy's seed range is legal too: one CMA-ES deme sprouted in metaepoch 1 (its seed is random_seed + 1)
-        prof.update({"n_levels": 2, "leaf": ["cma", "cma_warm", "cma_stds"][(idx // 12) % 3], "sprout": "simple", "level_limit": 1, "lscs": ["dontstop"], "gsc": "melimit",
-                     "root": ["sea", "de", "shade", "sobol"][(idx // 12) % 4], "fams": ["rastrigin", "sphere"]})
+        prof.update({"n_levels": 2, "leaf": ["cma", "cma_warm", "cma_stds"][(idx // 16) % 3], "sprout": "simple", "level_limit": 1, "lscs": ["dontstop"], "gsc": "melimit",
+                     "root": ["sea", "de", "shade", "sobol"][(idx // 16) % 4], "fams": ["rastrigin", "sphere"]})
     if idx % 8 == 5:
         # adaptive mutation whose width is handed over as an array: the step is added for every metaepoch since the last sprout
         prof.update({"n_levels": 2, "root": "sea_adapt", "leaf": ["sea", "de", "cma"][(idx // 8) % 3], "sprout": "simple", "level_limit": 1, "lscs": ["dontstop"], "gsc": "melimit",
                      "stacks": False, "fams": ["rastrigin", "sphere"]})
+    if idx % 8 == 1:
+        # warm-started CMA-ES children (sigma0 / CMA_stds estimated from the parent's population): the estimate must come from *this*
+        # tree's parent, whatever ran earlier in the process (see the history twin in run_case)
+        prof.update({"n_levels": 2 + (idx // 8) % 2, "leaf": ["cma_warm", "cma_stds", "cma_warm"][(idx // 8) % 3], "sprout": ["simple", "nbc"][(idx // 8) % 2], "level_limit": 2,
+                     "lscs": ["dontstop", "melimit"], "gsc": "melimit", "root": ["sea", "de", "shade", "sea_cx"][(idx // 8) % 4], "inner": ["sea", "de"][(idx // 16) % 2],
+                     "fams": ["rastrigin", "funnel", "sphere"], "stacks": False})
     multi = idx % 8 == 3
     if multi:
         # several demes sprouted onto one level in the same metaepoch, on a level whose engine consumes the seed it is handed
@@ -66,15 +73,36 @@ def make_case(seed, idx, tier):
         if lv["engine"] == "sea_adapt" and (rng.random() < 0.6 or idx % 8 == 5):
             lv["mutation_std_array"] = len(d["box"]["bounds"])  # per-dimension width given as an ndarray
     d["options"]["random_seed"] = rng.randint(0, 10**6) if idx % 6 else 0  # 0 is a legal seed
-    if idx % 12 == 5:
+    if top_seed:
         d["options"]["random_seed"] = 2**32 - 2
         d["sprout"]["far"] = 1e-9
         d["gsc"] = {"k": "melimit", "n": 4}
     d["c14"] = True
+    if idx % 4 == 1:
+        d["history_twin"] = True
+        if idx % 8 == 1:
+            d["force_subprocess"] = True
+            d["gsc"] = {"k": "melimit", "n": rng.randint(4, 6)}
     d["subprocess_hashseeds"] = ["1", "random"] if tier == "quick" else ["0", "1", "12345", "random"]
     if tier == "quick" and idx % 2 and not d.get("force_subprocess"):
         d["subprocess_hashseeds"] = []
     return d
+
+
+def _sibling_short_run(desc):
+    """A short run of a sibling configuration (same structure and dimension, other seed, other objective, two metaepochs): what a
+    benchmark loop or a test session has typically executed before the run under observation."""
+    import copy
+
+    p = copy.deepcopy(desc)
+    p["options"]["random_seed"] = (int(desc["options"].get("random_seed") or 0) + 12345) % (2**32 - 1000)
+    p["np_seed"] = (int(desc.get("np_seed", 0)) * 31 + 7) % (2**31 - 1)
+    obj = p["obj"]
+    obj["u"] = [round(1.0 - u, 3) for u in obj.get("u", [])]
+    p["gsc"] = {"k": "melimit", "n": 2}
+    p.pop("history_twin", None)
+    p.pop("rerun", None)
+    return p
 
 
 def snapshot_of(desc, np_seed):
@@ -155,6 +183,21 @@ def run_case(desc):
                 f"seeded repeat differs across processes / PYTHONHASHSEED: first difference in {_first_diff_class(s1, s3)}",
                 {"differences": diff_snapshots(s1, s3), "engines": gen.engine_mix(desc), "hashseed": hs},
             )
+    # the same seeded run after a short run of a sibling configuration in the same process: module- or class-level state left behind
+    # by an earlier tree (caches keyed by deme id, counters) must not reach this one
+    if desc.get("history_twin") and desc.get("kind") != "minimize":
+        harness.run_case(_sibling_short_run(desc))
+        c4, s4 = snapshot_of(desc, (desc["np_seed"] * 104729 + 5) % (2**31 - 1))
+        cov["runs_preceded_by_a_short_run_of_a_sibling_configuration"] += 1
+        warm = [dm for dm in s4.get("demes", []) if dm.get("class") == "CMADeme" and dm.get("level", 0) > 0]
+        if warm and any(lv["engine"] in ("cma_warm", "cma_stds") for lv in desc["levels"]):
+            cov["history_twins_with_a_warm_started_cma_deme"] += 1
+        if "aborted" not in s4 and snapshot_digest(s4) != snapshot_digest(s1):
+            c1.violation(
+                "C14",
+                f"seeded run depends on what ran before it in the process: first difference in {_first_diff_class(s1, s4)}",
+                {"differences": diff_snapshots(s1, s4), "engines": gen.engine_mix(desc), "preceded_by": "two metaepochs of the same configuration with another seed and objective"},
+            )
     # the same configuration *objects* run twice in one process (the most literal reading of "two runs of the same
     # configuration"): nothing the first run does to the objects it was handed may change the second
     stateful = any(st.startswith(("cutoff", "prec")) for lv in desc["levels"] for st in lv.get("stack", []))
@@ -175,6 +218,8 @@ def run_case(desc):
     per = Counter((dm["level"], dm["started_at"]) for dm in s1.get("demes", []) if dm["level"] > 0 and dm["class"] in ("CMADeme", "LHSDeme", "SobolDeme"))
     if any(v >= 2 for v in per.values()):
         cov["two_seed_consuming_demes_sprouted_onto_one_level_in_one_metaepoch"] += 1
+    if desc.get("options", {}).get("random_seed") == 2**32 - 2 and any(dm["class"] == "CMADeme" and dm["started_at"] == 1 for dm in s1.get("demes", [])):
+        cov["cma_deme_handed_the_largest_seed_numpy_accepts"] += 1
     if n_demes >= 2:
         cov["descriptors_with_2_demes"] += 1
     if len(desc["levels"]) >= 3:
